@@ -158,6 +158,41 @@ def subtree_histories():
     return hs
 
 
+def roworder_histories():
+    """Index rows older than the rows of their present ancestors: a subtree is filled somewhere else and then renamed to a
+    place below a directory whose own name recurs in the new path, so that the SQL depth expression of the listing
+    (replace(name, prefix, '')) selects the OLD deep rows before the directory's real children. Then every call that
+    depends on 'does this directory have children' (Remove, Rename onto it) and the limited listings (observation 'limits')."""
+    hs = []
+    k = 0
+    for base in ("", "/p"):
+        for m in (1, 2, 3, 4):
+            for kind in ("files", "dirs"):
+                for tail in ("remove", "rename-over", "remove-mid", "list-only"):
+                    A, Q = base + "/a", base + "/q"
+                    calls = [{"op": "initialize"}]
+                    if base:
+                        calls.append({"op": "mkdir", "name": base, "perm": 0o755})
+                    calls.append({"op": "mkdir", "name": Q, "perm": 0o755})
+                    for i in range(m):
+                        calls.append({"op": "createfile", "name": "%s/%d" % (Q, i), "blob": i % 2} if kind == "files" else {"op": "mkdir", "name": "%s/%d" % (Q, i), "perm": 0o755})
+                    calls += [{"op": "mkdir", "name": A, "perm": 0o755}, {"op": "mkdir", "name": A + "/b", "perm": 0o755},
+                              {"op": "rename", "name": Q, "name2": A + "/b/a"}]
+                    if tail == "remove":
+                        calls += [{"op": "remove", "name": A}, {"op": "remove", "name": A + "/b"}]
+                    elif tail == "rename-over":
+                        calls += [{"op": "mkdir", "name": base + "/z", "perm": 0o755}, {"op": "rename", "name": base + "/z", "name2": A},
+                                  {"op": "rename", "name": base + "/z", "name2": A + "/b"}]
+                    elif tail == "remove-mid":
+                        calls += [{"op": "createfile", "name": A + "/late", "blob": 1}, {"op": "remove", "name": A + "/b"}, {"op": "remove", "name": A},
+                                  {"op": "remove", "name": A + "/late"}, {"op": "remove", "name": A}]
+                    calls += [{"op": "mkdir", "name": base + "/after", "perm": 0o755}]
+                    hs.append({"config": {"rs": [20, 3, 1][k % 3], "cache": "file"}, "blobs": [{"seed": 1, "len": 700}, {"seed": 2, "len": 10}], "obs": FS_OBS, "calls": calls,
+                               "_scenario": "row-order:%s:%d:%s:%s" % (base, m, kind, tail)})
+                    k += 1
+    return hs
+
+
 def interplay_histories():
     """A written handle kept open across calls that remove or move its entry, and relative spellings of names
     ('a/b', './a/b', '.', '') in every position.  The open-handle histories are not evaluated on M1 (handles are modelled separately, File.v):
@@ -201,6 +236,7 @@ def fs_stream(ctx):
     hs += scenario_histories(ctx)
     hs += interplay_histories()
     hs += subtree_histories()
+    hs += roworder_histories()
     hs += fs_histories(ctx, 40 if quick else 400, 16 if quick else 40, ops_level=True)
     hs += fs_histories(ctx, 30 if quick else 300, 14 if quick else 30, ops_level=False)
     hs = replay_override(ctx, "history", hs, lambda h: dict(h, obs=FS_OBS))
